@@ -46,11 +46,15 @@ type c12Cmp struct {
 	IsStr bool
 	Num   float64
 	Str   string
+	Raw   string // double-quoted literal: the text between the quotes as written (escapes not interpreted)
 }
 
 type c12Pred struct {
 	Parts []c12Cmp
-	Join  string // "", "AND", "OR"
+	Join  string // "", "AND", "OR", "MIX"
+	// Joins[i] joins Parts[i] and Parts[i+1] when Join is "MIX": an unparenthesised chain with both AND and
+	// OR, where AND binds tighter (the shortcut must not fold it as a flat chain)
+	Joins []string
 }
 
 type c12Case struct {
@@ -105,6 +109,15 @@ func c12GenCmp(r *rand.Rand, sql bool) c12Cmp {
 		c.Str = pick(r, c12StrLits)
 		c.Lit = "'" + c.Str + "'"
 		c.Col = pick(r, []string{"s", "s", "s", "s", "x"})
+		if !sql && r.Intn(6) == 0 {
+			// expr-lang's double-quoted literal, in which a backslash starts an escape: the general evaluator
+			// compares with the unescaped text (package boundary only; SQL statements use single quotes)
+			c.Lit = pick(r, []string{`"abc"`, `"a\tb"`, `"C:\\x"`, `"a\nb"`, `"x"`, `"tab\there"`})
+			if u, err := strconv.Unquote(c.Lit); err == nil {
+				c.Str = u
+				c.Raw = c.Lit[1 : len(c.Lit)-1]
+			}
+		}
 	} else {
 		c.Lit = pick(r, c12NumLits)
 		if r.Intn(60) == 0 {
@@ -122,6 +135,21 @@ func c12GenPred(r *rand.Rand, sql bool) c12Pred {
 	if r.Intn(5) >= 2 {
 		n = 2 + r.Intn(3)
 		p.Join = pick(r, []string{"AND", "OR"})
+		if n >= 3 && r.Intn(4) == 0 {
+			p.Join = "MIX"
+			for {
+				p.Joins = p.Joins[:0]
+				seen := map[string]bool{}
+				for i := 0; i < n-1; i++ {
+					j := pick(r, []string{"AND", "OR"})
+					seen[j] = true
+					p.Joins = append(p.Joins, j)
+				}
+				if len(seen) == 2 {
+					break
+				}
+			}
+		}
 	}
 	for i := 0; i < n; i++ {
 		p.Parts = append(p.Parts, c12GenCmp(r, sql))
@@ -146,6 +174,17 @@ func (p c12Pred) render(r *rand.Rand, col func(string) string, and, or string, p
 	j := " " + and + " "
 	if p.Join == "OR" {
 		j = " " + or + " "
+	}
+	if p.Join == "MIX" {
+		out := parts[0]
+		for i, jn := range p.Joins {
+			if jn == "OR" {
+				out += " " + or + " " + parts[i+1]
+			} else {
+				out += " " + and + " " + parts[i+1]
+			}
+		}
+		return out
 	}
 	return strings.Join(parts, j)
 }
@@ -308,6 +347,10 @@ func c12GenValue(r *rand.Rand, p c12Pred, col string) any {
 				return ""
 			case 2:
 				return strings.ToUpper(c.Str)
+			case 3:
+				if c.Raw != "" {
+					return c.Raw // the literal's text as written, escapes not interpreted
+				}
 			}
 			return c.Str
 		}
@@ -352,6 +395,7 @@ func c12GenRow(r *rand.Rand, p c12Pred, id int) Row {
 // <= 1e9, or a string compared with a string literal.  ok=false outside that sub-domain.
 func c12Ref(p c12Pred, row Row, safeStr func(string) bool) (dec bool, ok bool) {
 	res := p.Join != "OR"
+	var atoms []bool
 	for _, c := range p.Parts {
 		if c.Op == "<>" {
 			return false, false // not accepted by most sites
@@ -374,11 +418,26 @@ func c12Ref(p c12Pred, row Row, safeStr func(string) bool) (dec bool, ok bool) {
 			}
 			b = c12CmpNum(f, c.Op, c.Num)
 		}
+		atoms = append(atoms, b)
 		if p.Join == "OR" {
 			res = res || b
 		} else {
 			res = res && b
 		}
+	}
+	if p.Join == "MIX" {
+		// OR of AND-groups
+		res = false
+		grp := atoms[0]
+		for i, jn := range p.Joins {
+			if jn == "AND" {
+				grp = grp && atoms[i+1]
+			} else {
+				res = res || grp
+				grp = atoms[i+1]
+			}
+		}
+		res = res || grp
 	}
 	return res, true
 }
@@ -665,6 +724,32 @@ func c12RunVanilla(p *vm.Program, row Row) (dec bool, failed bool) {
 // its NULL-tolerant re-evaluation.  For single comparisons and AND chains a failure can never be
 // rescued, so an accepted failing row stays a violation there.
 func c12RescuedByOr(p c12Pred, row Row) bool {
+	if p.Join == "MIX" {
+		// some AND-group whose members all evaluate to true on their own
+		start := 0
+		groupTrue := func(lo, hi int) bool {
+			for i := lo; i <= hi; i++ {
+				one := c12Pred{Parts: p.Parts[i : i+1]}
+				v := c12Vanilla(one.render(nil, func(c string) string { return c }, "&&", "||", false))
+				if v == nil {
+					return false
+				}
+				if dec, failed := c12RunVanilla(v, c12CopyRow(row)); failed || !dec {
+					return false
+				}
+			}
+			return true
+		}
+		for i, jn := range p.Joins {
+			if jn == "OR" {
+				if groupTrue(start, i) {
+					return true
+				}
+				start = i + 1
+			}
+		}
+		return groupTrue(start, len(p.Parts)-1)
+	}
 	if p.Join != "OR" {
 		return false
 	}
